@@ -252,9 +252,18 @@ func (m *mCont) observe(x interface{}) oSnap {
 			l, _ := readRow(r, v.Start(), v.End(), false)
 			o.Rows = append(o.Rows, oRow{r.Start(), r.End(), l, "", strandOf(r), r.Name()})
 		}
+		// every column is fetched before any is looked at: an answer stays the caller's while later ones are asked for
+		var heldC [][]alphabet.Letter
+		var heldQ [][]alphabet.QLetter
 		for p := 0; p < v.Len(); p++ {
-			o.Cols = append(o.Cols, string(alphabet.LettersToBytes(v.Column(p, true))))
-			ql := v.ColumnQL(p, true)
+			heldC = append(heldC, v.Column(p, true))
+		}
+		for p := 0; p < v.Len(); p++ {
+			heldQ = append(heldQ, v.ColumnQL(p, true))
+		}
+		for p := 0; p < v.Len(); p++ {
+			o.Cols = append(o.Cols, string(alphabet.LettersToBytes(heldC[p])))
+			ql := heldQ[p]
 			for k, x := range ql {
 				if byte(x.L) != o.Cols[p][k] {
 					o.Cols[p] = "ColumnQL disagrees with Column"
@@ -268,9 +277,17 @@ func (m *mCont) observe(x interface{}) oSnap {
 			l, qq := readRow(r, v.Start(), v.End(), true)
 			o.Rows = append(o.Rows, oRow{r.Start(), r.End(), l, qq, strandOf(r), r.Name()})
 		}
+		var heldC [][]alphabet.Letter
+		var heldQ [][]alphabet.QLetter
 		for p := 0; p < v.Len(); p++ {
-			ql := v.ColumnQL(p, true)
-			col := v.Column(p, true)
+			heldQ = append(heldQ, v.ColumnQL(p, true))
+		}
+		for p := 0; p < v.Len(); p++ {
+			heldC = append(heldC, v.Column(p, true))
+		}
+		for p := 0; p < v.Len(); p++ {
+			ql := heldQ[p]
+			col := heldC[p]
 			c := make([]byte, len(ql))
 			qq := make([]byte, len(ql))
 			for k, x := range ql {
@@ -294,9 +311,17 @@ func (m *mCont) observe(x interface{}) oSnap {
 			l, qq := readRow(r, r.Start(), r.End(), q)
 			o.Rows = append(o.Rows, oRow{r.Start(), r.End(), l, qq, strandOf(r), r.Name()})
 		}
+		var heldC [][]alphabet.Letter
+		var heldQ [][]alphabet.QLetter
 		for p := o.Start; p < o.End; p++ {
-			col := v.Column(p, true)
-			ql := v.ColumnQL(p, true)
+			heldC = append(heldC, v.Column(p, true))
+		}
+		for p := o.Start; p < o.End; p++ {
+			heldQ = append(heldQ, v.ColumnQL(p, true))
+		}
+		for p := o.Start; p < o.End; p++ {
+			col := heldC[p-o.Start]
+			ql := heldQ[p-o.Start]
 			c := string(alphabet.LettersToBytes(col))
 			if len(ql) != len(col) {
 				c = "Column and ColumnQL differ in length"
